@@ -1,5 +1,6 @@
 pub mod clock;
 pub mod exec;
 pub mod hist;
+pub mod pipe;
 pub mod runner;
 pub mod transport;
